@@ -158,6 +158,9 @@ def canon(ir):
         return Poly.atom('%s(%s)' % (name, ', '.join(a.show() for a in args)))
     if k == 'str':
         return Poly.atom(repr(ir[1]))
+    if k == 'bool':
+        c = ccanon(ir[1])
+        return Poly.atom('bool(%s)' % ('not(%s)' % c[1] if isinstance(c, tuple) else c))
     raise Unsupported('ir %s' % k)
 
 
@@ -250,9 +253,14 @@ def py_ir(e, env):
             return ('neg', py_ir(e.operand, env))
         if isinstance(e.op, ast.UAdd):
             return py_ir(e.operand, env)
+        if isinstance(e.op, ast.Not):
+            return ('bool', py_cond(e, env))
         raise Unsupported('unary')
     if isinstance(e, ast.IfExp):
         return ('ite', py_cond(e.test, env), py_ir(e.body, env), py_ir(e.orelse, env))
+    if isinstance(e, ast.BoolOp) or (isinstance(e, ast.UnaryOp) and isinstance(e.op, ast.Not)) or isinstance(e, ast.Compare):
+        # a condition held in a temporary (`hand_timed = a and b`): kept as a condition, read back where the temporary is tested
+        return ('bool', py_cond(e, env))
     if isinstance(e, ast.Tuple):
         return ('tuple', [py_ir(x, env) for x in e.elts])
     if isinstance(e, ast.Subscript):
@@ -306,7 +314,10 @@ def py_cond(t, env):
         return ('and' if isinstance(t.op, ast.And) else 'or', [py_cond(v, env) for v in t.values])
     if isinstance(t, ast.UnaryOp) and isinstance(t.op, ast.Not):
         return ('not', py_cond(t.operand, env))
-    return ('truthy', py_ir(t, env))
+    v = py_ir(t, env)
+    if v[0] == 'bool':
+        return v[1]
+    return ('truthy', v)
 
 
 def _assigned(stmts):
